@@ -60,6 +60,25 @@ Theorem C07_content_after : forall t (a b : Z) t', wf t -> rmslice t a b = Ok t'
                tc_after t.
 Proof. exact rmslice_content. Qed.
 
+(* sequences of removals on one lineage (what a strategy run does): as long as each pair of bounds
+   is ordered after clamping, the chain never raises, and the result is the chain of the
+   specification on the atom list alone; prefix and suffix never change, len() never grows *)
+Theorem C07_sequence : forall ops t, wf t -> ordered_seq (zipped t) ops = true ->
+  exists t', rm_seq t ops = Ok t' /\ wf t' /\
+    zipped t' = spec_seq (zipped t) ops /\
+    tc_before t' = tc_before t /\ tc_after t' = tc_after t /\
+    tc_len t' <= tc_len t.
+Proof. exact rm_seq_spec. Qed.
+
+Example C07_sequence_example :
+  let t := {| tc_before := [1%N]; tc_parts := [[10%N]; [11%N]; [12%N]; [13%N]; [14%N]];
+              tc_red := [false; true; true; false; true]; tc_after := [2%N] |} in
+  ordered_seq (zipped t) [(1, -1); (-5, 1); (0, 7)] = true /\
+  rm_seq t [(1, -1); (-5, 1); (0, 7)] =
+    Ok {| tc_before := [1%N]; tc_parts := [[10%N]; [13%N]];
+          tc_red := [false; false]; tc_after := [2%N] |}.
+Proof. split; reflexivity. Qed.
+
 (* in the functional model copy is the identity (aliasing is covered by the
    correspondence check, which compares the source object after every operation) *)
 Theorem C07_copy : forall t, copy t = t.
@@ -88,5 +107,6 @@ Print Assumptions C07_empty_range_identity.
 Print Assumptions C07_full_range.
 Print Assumptions C07_len_after.
 Print Assumptions C07_content_after.
+Print Assumptions C07_sequence.
 Print Assumptions C07_copy.
 Print Assumptions C07_precondition_needed_refuted.
